@@ -387,8 +387,9 @@ Lemma i_ccap k s E args : eff_inv s (d_ccap k s E args).
 Proof.
   unfold d_ccap. destruct (conv_op s E args) as [[ch r]|] eqn:CO; [|exact Logic.I].
   assert (Hch : C03.Model.isChannel ch = true).
-  { unfold conv_op in CO. destruct args as [|x xs]; [discriminate|].
-    destruct (C03.Model.isChannel x) eqn:K; [|discriminate].
+  { unfold conv_op in CO.
+    destruct (match args with [] => _ | _ :: _ => _ end) as [[ch0 r0]|]; [|discriminate].
+    destruct (C03.Model.isChannel ch0) eqn:K; [|discriminate].
     destruct (holds _ _ _); [|discriminate]. inversion CO; subst. exact K. }
   destruct k; try exact Logic.I; crack'; fin'.
   all: intro HS; try (apply sremove_addable; exact HS).
@@ -400,6 +401,7 @@ Qed.
 
 Lemma decide_inv k s E args : eff_inv s (decide k s E args).
 Proof.
+  unfold decide. destruct (needs_private k && negb (in_private E)); [exact Logic.I|].
   destruct k; simpl;
     auto using i_register, i_unregister, i_changename, i_identify, i_unidentify, i_hostadd, i_hostremove,
       i_setpassword, i_setsecure, i_acapadd, i_acapremove, i_aignadd, i_aignremove, i_ccap.
